@@ -297,9 +297,9 @@ func (vs *ValueSet) Args() []Arg {
 }
 
 // Named returns a pointer to the value with the given name, or nil if
-// it doesn't exist.
+// it doesn't exist. Names are case insensitive.
 func (vs *ValueSet) Named(n string) *Value {
-	return vs.namedValues[n]
+	return vs.namedValues[strings.ToLower(n)]
 }
 
 // Typed returns a pointer to the value with the given type, or nil
